@@ -132,6 +132,12 @@ def run(tier, replay):
                               "exhaustive": all(r.get("exhaustive", False) for r in reps),
                               "wall_s": round(time.time() - ts, 1)}
             checklib.log("seam %s: %s" % (s[0], per_seam[s[0]]))
+            # finish() keeps the first 12 samples it meets: leave two per seam so that every seam is represented
+            kept = 0
+            for r in reps:
+                ss = r.get("samples") or []
+                r["samples"] = ss[:max(0, 2 - kept)]
+                kept += len(r["samples"])
             reports += reps
             shutil.rmtree(sdir, ignore_errors=True)
         return checklib.finish(CID, tier, "exploration", RULE, reports, t0, ASSUMPTIONS,
